@@ -355,12 +355,12 @@ theorem C01_step_cfg {lcs nb : Bool} {scp : Option Bool} {sat : Bool} (f : Fores
 /-- … in particular on the patched tree … -/
 theorem C01_step (f : Forest) (n : Bool) (op : Op) (hf : f.ok = true) :
     (stepA Cfg.patched f n op).forest.ok = true :=
-  C01_step_cfg (lcs := true) (nb := true) (scp := none) (sat := false) f n op hf
+  C01_step_cfg (lcs := true) (nb := true) (scp := none) (sat := true) f n op hf
 
 /-- … and for a call that runs inside `with pg.allow_partial(b):` (configurations with a scope). -/
 theorem C01_step_scoped (b : Bool) (f : Forest) (n : Bool) (op : Op) (hf : f.ok = true) :
     (stepA { Cfg.patched with scopePartial := some b } f n op).forest.ok = true :=
-  C01_step_cfg (lcs := true) (nb := true) (scp := some b) (sat := false) f n op hf
+  C01_step_cfg (lcs := true) (nb := true) (scp := some b) (sat := true) f n op hf
 
 /-- **No aliasing**: from a well-formed forest, no call on a tree with the belief fixes ever has
 to put one node object in two places (the model's mark `aliased` stays false). The only way to
@@ -388,12 +388,12 @@ theorem C01_step_Full_cfg {lcs nb : Bool} {scp : Option Bool} {sat : Bool} (f : 
 
 theorem C01_step_Full (f : Forest) (n : Bool) (op : Op) (hf : f.wf = true) (hk : wellKeyed op = true) :
     (stepA Cfg.patched f n op).forest.wf = true :=
-  C01_step_Full_cfg (lcs := true) (nb := true) (scp := none) (sat := false) f n op hf hk
+  C01_step_Full_cfg (lcs := true) (nb := true) (scp := none) (sat := true) f n op hf hk
 
 /-- the full invariant for a call inside `with pg.allow_partial(b):`. -/
 theorem C01_step_Full_scoped (b : Bool) (f : Forest) (n : Bool) (op : Op) (hf : f.wf = true) (hk : wellKeyed op = true) :
     (stepA { Cfg.patched with scopePartial := some b } f n op).forest.wf = true :=
-  C01_step_Full_cfg (lcs := true) (nb := true) (scp := some b) (sat := false) f n op hf hk
+  C01_step_Full_cfg (lcs := true) (nb := true) (scp := some b) (sat := true) f n op hf hk
 
 /-- the representation half (ids distinct and bounded, key shapes) needs none of the fixes: it is
 preserved by every operation on *every* configuration of the tree — the defects F02 / F03 / F78 /
@@ -588,7 +588,7 @@ theorem C01_removed_detached_cfg {lcs nb : Bool} {scp : Option Bool} {sat : Bool
 
 theorem C01_removed_detached (f : Forest) (n : Bool) (op : Op) (hf : f.rootsFree = true) (hp : ValueFree op = true) :
     (stepA Cfg.patched f n op).forest.rootsFree = true :=
-  C01_removed_detached_cfg (lcs := true) (nb := true) (scp := none) (sat := false) f n op hf hp
+  C01_removed_detached_cfg (lcs := true) (nb := true) (scp := none) (sat := true) f n op hf hp
 
 /-- a slice assignment `l[a:b:c] = values`. -/
 def IsSliceAssign : Op → Bool
@@ -751,7 +751,7 @@ theorem C01_fixed_F78 :
     divergent f (.setItem 1 (.s 0) (.ref 0)) = false ∧
       (stepA Cfg.patched f true (.setItem 1 (.s 0) (.ref 0))).forest.wf = true := by decide
 
-/-- F225: `l = pg.List([1, 2]); x = pg.Dict(); l[1:2] = [x]`. On the tree as it is the value is
+/-- F225: `l = pg.List([1, 2]); x = pg.Dict(); l[1:2] = [x]`. On the tree before the fix the value is
 formalized for index 0 and then stored at position 1: a copy goes into the list, and `x` stays a
 root that claims `l` as its parent (the state is still `wf`: nothing is demanded of the beliefs
 of a root — which is why `rootsFree` is a separate theorem, and why it is false here). With the
@@ -760,26 +760,27 @@ def fSlice : Forest :=
   (stepA Cfg.patched (stepA Cfg.patched Forest.empty true (.new (veList [.atom (.int 1), .atom (.int 2)]))).forest
     true (.new (veDict []))).forest
 
-def cfgF225 : Cfg := Cfg.fixedWith true true none true
+/-- the tree with every fix but the one for F225. -/
+def cfgF225 : Cfg := Cfg.fixedWith true true none false
 
 theorem C01_counterexample_F225 :
     fSlice.rootsFree = true ∧
-    (stepA Cfg.patched fSlice true (.lSetSlice 0 (some 1) (some 2) none [.ref 1])).forest.rootsFree = false ∧
-    ((stepA Cfg.patched fSlice true (.lSetSlice 0 (some 1) (some 2) none [.ref 1])).forest.roots.length = 2) := by
+    (stepA cfgF225 fSlice true (.lSetSlice 0 (some 1) (some 2) none [.ref 1])).forest.rootsFree = false ∧
+    ((stepA cfgF225 fSlice true (.lSetSlice 0 (some 1) (some 2) none [.ref 1])).forest.roots.length = 2) := by
   decide
 
 /-- … also a rejected extended-slice assignment (`l[0:2:2] = [x, 3]`, ValueError) leaves `x` in
 that state. -/
 theorem C01_counterexample_F225_rejected :
-    (stepA Cfg.patched fSlice true (.lSetSlice 0 (some 0) (some 2) (some 2) [.ref 1, .atom (.int 3)])).out = .err .value ∧
-    (stepA Cfg.patched fSlice true (.lSetSlice 0 (some 0) (some 2) (some 2) [.ref 1, .atom (.int 3)])).forest.rootsFree = false := by
+    (stepA cfgF225 fSlice true (.lSetSlice 0 (some 0) (some 2) (some 2) [.ref 1, .atom (.int 3)])).out = .err .value ∧
+    (stepA cfgF225 fSlice true (.lSetSlice 0 (some 0) (some 2) (some 2) [.ref 1, .atom (.int 3)])).forest.rootsFree = false := by
   decide
 
 theorem C01_fixed_F225 :
-    (stepA cfgF225 fSlice true (.lSetSlice 0 (some 1) (some 2) none [.ref 1])).forest.rootsFree = true ∧
-    (stepA cfgF225 fSlice true (.lSetSlice 0 (some 1) (some 2) none [.ref 1])).forest.roots.length = 1 ∧
-    (stepA cfgF225 fSlice true (.lSetSlice 0 (some 1) (some 2) none [.ref 1])).forest.wf = true ∧
-    (stepA cfgF225 fSlice true (.lSetSlice 0 (some 0) (some 2) (some 2) [.ref 1, .atom (.int 3)])).forest.rootsFree = true := by
+    (stepA Cfg.patched fSlice true (.lSetSlice 0 (some 1) (some 2) none [.ref 1])).forest.rootsFree = true ∧
+    (stepA Cfg.patched fSlice true (.lSetSlice 0 (some 1) (some 2) none [.ref 1])).forest.roots.length = 1 ∧
+    (stepA Cfg.patched fSlice true (.lSetSlice 0 (some 1) (some 2) none [.ref 1])).forest.wf = true ∧
+    (stepA Cfg.patched fSlice true (.lSetSlice 0 (some 0) (some 2) (some 2) [.ref 1, .atom (.int 3)])).forest.rootsFree = true := by
   decide
 
 /-- F30 (known): `d = pg.Dict(k0=pg.Dict()); d.k0.k1 = d` — the model has no after-state. -/
